@@ -15,6 +15,7 @@ import Mathlib.Tactic.FieldSimp
 import Mathlib.Tactic.NormNum
 import Mathlib.Tactic.Positivity
 import Mathlib.Algebra.Order.Floor.Defs
+import Mathlib.Data.Rat.Cast.Lemmas
 
 open Aegean.Model.C17
 
@@ -72,5 +73,24 @@ theorem half_unit (x : ℝ) (n : ℤ) (c : ℝ) (hc : 0 < c) (h : IsRound (x * c
   calc |x * c - n| * (2 * c) ≤ 1 / 2 * (2 * c) := by
         apply mul_le_mul_of_nonneg_right h; positivity
     _ = 1 * c := by ring
+
+/-! ### `float(token)` over ℝ -/
+
+theorem ofSci_real (m e : ℕ) : (OfScientific.ofScientific m true e : ℝ) = (m : ℝ) / 10 ^ e := by
+  rw [← Rat.cast_ofScientific (K := ℝ)]
+  show ((Rat.ofScientific m true e : ℚ) : ℝ) = _
+  rw [Rat.ofScientific_true_def, Rat.mkRat_eq_div]
+  push_cast; rfl
+
+/-- an integer field `DD` is read as the number `DD` -/
+theorem numVal_int (k : Nat) : (numVal (false, k, 0) : ℝ) = k := by
+  simp [numVal, ofSci_real]
+
+theorem numVal_negInt (k : Nat) : (numVal (true, k, 0) : ℝ) = -(k : ℝ) := by
+  simp [numVal, ofSci_real]
+
+/-- the seconds field `SS.CC` is read as `cs / 100` -/
+theorem numVal_centi (cs : Nat) : (numVal (false, cs, 2) : ℝ) = (cs : ℝ) / 100 := by
+  simp [numVal, ofSci_real]; norm_num
 
 end Aegean.C17
